@@ -9,7 +9,7 @@ use crate::{
     machine::{
         cost_model::ExBudget,
         runtime::{Compressable, INTEGER_TO_BYTE_STRING_MAXIMUM_OUTPUT_LENGTH},
-        value::from_pallas_bigint,
+        value::{from_pallas_bigint, integer_log2},
     },
 };
 use blst::{blst_p1, blst_p2};
@@ -579,7 +579,7 @@ impl DefaultFunction {
                 {
                     matches!(c1.as_ref(), Constant::Bool(..))
                         && matches!(c2.as_ref(), Constant::Integer(i) if i == &0.into())
-                        && matches!(c3.as_ref(), Constant::Integer(i) if i >= &0.into())
+                        && matches!(c3.as_ref(), Constant::Integer(i) if i >= &0.into() && integer_log2(i.clone()) < 8 * INTEGER_TO_BYTE_STRING_MAXIMUM_OUTPUT_LENGTH)
                 } else {
                     false
                 }
